@@ -137,8 +137,11 @@ CLAIMS.update({
          "character literals as layout pieces, and tokens adjacent without white space (re-layout searcher only).", "machine-checked proof (Lean 4) about a hand-written model + token-level correspondence", "6 C12"),
  'C16': ("proof", "Proof of (a) and (c): for every well-formed block, exit modes lacking NONE imply the block cannot complete normally, and "
          "whatever follows such a prefix is unreachable - against an abstract control-flow semantics in which every condition may go either "
-         "way (induction over derivations, all programs). The analysis model is tied to blocks.py by recomputing the mode of every block "
-         "of every accepted function. (b) missing-return rejection is part of the tc suite; (d) the machine-level statement is PROVED for "
+         "way and every statement that evaluates an expression may be defeated (induction over derivations, all programs). The analysis "
+         "model is tied to blocks.py by recomputing the mode of every block of every accepted function. (b) PROVED for every source text: "
+         "accepted_function_never_falls_off - the modes the typechecker model writes into its tree are that analysis of the statements it "
+         "kept (tcStmt_link), so no function body of an accepted program can complete normally (a missing return is rejected, an empty "
+         "function gets its return appended); (d) the machine-level statement is PROVED for "
          "the verified core (functions laid out one after another: core_entry_never_falls_off, core_activation_returns_to_caller, and "
          "C01.core_semantic_preservation, whose trace equality excludes running into the next function) and validated beyond it by the "
          "fall-through monitor.", "machine-checked proof (Lean 4) of the exit-mode analysis + mode correspondence + VM monitor", "6 C16"),
